@@ -26,7 +26,7 @@ pub(super) fn derive_schema(input: TokenStream) -> syn::Result<TokenStream> {
             &*container_attrs.serde.from,
             &*container_attrs.serde.try_from,
         ) {
-            (None, None, None) => schema_of_fields(s.fields, &container_attrs.serde.rename_all)?,
+            (None, None, None) => schema_of_fields(s.fields, &container_attrs.serde.rename_all, container_attrs.serde.default)?,
             (Some(t), _, _) | (_, Some(t), _) | (_, _, Some(t)) => {
                 let t = syn::parse_str::<Type>(t)?;
                 quote! {
@@ -125,7 +125,7 @@ pub(super) fn derive_schema(input: TokenStream) -> syn::Result<TokenStream> {
         })
     }
 
-    fn schema_of_fields(fields: Fields, rename_all: &Separatable<Case>) -> syn::Result<TokenStream> {
+    fn schema_of_fields(fields: Fields, rename_all: &Separatable<Case>, container_default: bool) -> syn::Result<TokenStream> {
         match fields {
             Fields::Named(FieldsNamed { brace_token:_, named }) => {/* object */
                 let mut properties = Vec::with_capacity(named.len());
@@ -162,6 +162,7 @@ pub(super) fn derive_schema(input: TokenStream) -> syn::Result<TokenStream> {
                     let inner_option = inner_Option(ty);
 
                     let is_optional_field = inner_option.is_some()
+                        || container_default
                         || field_attrs.serde.default
                         || field_attrs.serde.skip_serializing_if.is_some();
 
@@ -376,7 +377,7 @@ pub(super) fn derive_schema(input: TokenStream) -> syn::Result<TokenStream> {
                         #schema_with()
                     }
                 } else {
-                    schema_of_fields(v.fields, rename_all_of_fields)?
+                    schema_of_fields(v.fields, rename_all_of_fields, false)?
                 };
 
                 schema = match (
